@@ -103,12 +103,9 @@ func (c *c19Ctx) genScenario(seed uint64, progs []*c19Prog) *Scenario {
 		s.NoFinalNL = true
 	}
 	shapes := []string{"src-dst", "src-dst-lst", "none", "src", "four", "d-src-dst", "d-only", "v", "help", "badflag"}
-	s.Shape = shapes[r.weighted([]int{72, 8, 2, 3, 2, 4, 1, 1, 1, 2})]
+	s.Shape = shapes[r.weighted([]int{66, 12, 2, 3, 3, 5, 1, 1, 1, 2})]
 	if s.Shape == "src-dst-lst" || s.Shape == "four" {
-		s.LstKind = "ok"
-		if r.Chance(1, 4) {
-			s.LstKind = "parent_missing"
-		}
+		s.LstKind = pick(r, []string{"ok", "ok", "ok", "parent_missing", "same_as_dst", "existing"})
 	}
 	srcKinds := []string{"file", "missing", "dir", "mode000", "symlink_ok", "dangling", "loop", "spacename", "nonascii_name", "longname", "same_as_dst", "emptyarg"}
 	s.SrcKind = srcKinds[r.weighted([]int{80, 3, 2, 2, 2, 1, 1, 2, 2, 1, 2, 1})]
